@@ -30,6 +30,7 @@ MANIFEST = {
     "note": "Representation of constants (macro vs constexpr, suffixes) is not judged; Python float constants are compared as doubles. Types whose "
             "probe does not compile are skipped and counted (a C06 matter); >10% skipped makes the run inconclusive.",
 }
+MANIFEST["text"] += ' A second regeneration history runs over the output of an older version of a namespace in which only nested definitions were edited (dated after that output): every type that nests them must carry the new sizes.'
 
 
 def const_expect(c):
